@@ -128,6 +128,14 @@ func (ex *Exec) verifyFunction(fn *ssa.Function, c *Contract) {
 		ex.oblige(st, "binding", c.Key+"#binding", allProps(c), TFalse, err.Error())
 		return
 	}
+	// a closure under contract: its captured variables are symbolic too, and named in the contract
+	var fvVals []Value
+	for _, fv := range fn.FreeVars {
+		v := ex.fresh(st, fv.Type(), fv.Name(), 0)
+		fvVals = append(fvVals, v)
+		vars[fv.Name()] = v
+	}
+	ex.topFreeVars = fvVals
 	pre := st.clone()
 	ctx0 := &EvalCtx{ex: ex, pre: pre, post: pre, vars: vars, bound: map[string]Value{}, fn: fn}
 	for _, cl := range c.byKind("requires") {
@@ -274,6 +282,28 @@ func (ex *Exec) atReturn(fn *ssa.Function, c *Contract, pre, post *State, vars m
 				continue
 			}
 			emit(kind, cl.Label, cl.Props, Implies(okCond, t), cl.Text)
+		}
+	}
+	// step relations (history lemmas): every successful transaction, i.e. every MsgServer method, must satisfy them
+	if strings.HasPrefix(c.Key, "keeper.msgServer.") && fn.Object() != nil && fn.Object().Exported() {
+		for _, cl := range stepClauses {
+			if !relevant(cl, ex.prop) {
+				continue
+			}
+			t, err := ctx.EvalBool(cl.E)
+			if err != nil {
+				ex.oblige(post, "binding", c.Key+"#binding", cl.Props, TFalse, fmt.Sprintf("step[%s]: %v", cl.Label, err))
+				continue
+			}
+			stq := post
+			if len(ctx.side) > 0 {
+				stq = post.clone()
+				for _, s := range ctx.side {
+					stq.assume(s)
+				}
+				ctx.side = nil
+			}
+			ex.oblige(stq, "lemma", fmt.Sprintf("lemma.%s@%s", cl.Label, strings.TrimPrefix(c.Key, "keeper.msgServer.")), cl.Props, Implies(okCond, t), cl.Text)
 		}
 	}
 	// frame: every abstract component not named by a modifies clause is unchanged; named keyed ones only at the key
